@@ -522,6 +522,15 @@ class World:
                 a = var_value(n["var"])
                 key = n["key"]
                 r = np.asarray(a[key])
+            elif n.get("sugar") == "round":
+                # the reference for round(expr, n) is numpy's / Python's round of
+                # the value (half to even), not the expression Pulser expands it to
+                with warnings.catch_warnings():
+                    warnings.simplefilter("ignore")
+                    src = np.asarray(ev(n["src"]))
+                    r = np.asarray(np.round(src.astype(float), n["digits"]))
+                    if r.ndim == 0 and n["digits"] == 0 and np.isfinite(r):
+                        assert float(r) == float(round(float(src)))  # Python agrees on ties
             else:
                 cls = n["cls"]
                 A = [arg(nid, i, a) for i, a in enumerate(n["args"])]
